@@ -105,6 +105,8 @@ pub fn encoder_alpha_small(enc: &'static Encoding, base: &[u32]) -> Vec<u32> {
     for &(lo, hi) in [(0x4E00u32, 0x9FFFu32), (0x3040, 0x30FF), (0xAC00, 0xD7A3)].iter() {
         if let Some(m) = full.iter().find(|c| **c >= lo && **c <= hi && mappable(oe, **c)) { v.push(*m); }
         if let Some(u) = full.iter().find(|c| **c >= lo && **c <= hi && !mappable(oe, **c)) { v.push(*u); }
+        // the first unmappable scalar that FOLLOWS a mappable one (a hole inside the arm, e.g. U+3094 for jis0208)
+        if let Some(m) = full.iter().find(|c| **c >= lo && **c <= hi && mappable(oe, **c)) { if let Some(u) = full.iter().find(|c| **c > *m && **c <= hi && !mappable(oe, **c)) { v.push(*u); } }
     }
     v.sort(); v.dedup(); v
 }
